@@ -101,7 +101,7 @@ Proof. vm_compute. reflexivity. Qed.
 
 (* ... and with the UNINIT forms among the conversions: such a stage converts with only the mandatory added
    fields, then writes each added field that was left uninitialised (plain data only - what the generated gate
-   C11 admits) through its mutable accessor, then goes on with any reads and writes.  Same accounting, no fault. *)
+   C11 allows) through its mutable accessor, then goes on with any reads and writes.  Same accounting, no fault. *)
 From Truc.Proofs Require Import ChainU.
 Theorem C06_whole_life_uninit : forall ds TI rt A cap, rt_ok rt = true ->
   forall (stages : list ustage) P vals b v,
